@@ -155,10 +155,13 @@ Prune(w) == IF w.tlimit = 0 THEN [st |-> w, n |-> 0, why |-> "off"] ELSE PruneN(
 (* every numbered file has been removed the head is index 0 again.                     *)
 Reindex(w) == IF w.gone > 0 /\ w.gone + 1 = NFiles(w) THEN [w EXCEPT !.files = <<HeadF(w)>>, !.gone = 0] ELSE w
 
-(* NewWAL + BaseWAL.OnStart: an empty head gets the marker of height 0, synced *)
+(* NewWAL + BaseWAL.OnStart: a NEW log (empty head, no rotated file left) gets the marker of height 0, synced. *)
+(* (Before the repair of F-wal-start-marker-after-rotation every empty head got one: a log that stopped right    *)
+(* after a rotation then carried a second #ENDHEIGHT 0 behind its records, which hid the records of the initial  *)
+(* height from the replay - found by the rotating crash sweep of C05.)                                            *)
 Start(w, ehsz) ==
   LET w1 == [Reindex(w) EXCEPT !.up = TRUE] IN
-  IF HeadF(w) = <<>> THEN WriteSync(w1, "eh", 0, ehsz).st ELSE w1
+  IF HeadF(w) = <<>> /\ NFiles(w1) = 1 THEN WriteSync(w1, "eh", 0, ehsz).st ELSE w1
 
 (* BaseWAL.OnStop: FlushAndSync, close *)
 Stop(w)  == [Flush(w) EXCEPT !.up = FALSE]
